@@ -97,6 +97,10 @@ def thermal_worker(job, oblig_fn, meta_prefix, pfkw=None, witnesses_fn=None, bui
 
     def run():
         net, names = nets.build(spec, nets.sym_valuer(), fluid=stubs.make_sym_fluid(spec["fluid"] != "water", **(fluid_kwargs or {})), **bkw)
+        if job.get("pre_run"):
+            # an earlier calculation on the same net object with other options (the examined call must not see it)
+            pre = {k: (real(v[4:]) if isinstance(v, str) and v.startswith("sym:") else v) for k, v in job["pre_run"].items()}
+            pp.pipeflow(net, use_numba=numba, **pre)
         pp.pipeflow(net, **kw)
         return net
     _, names = nets.build(spec, nets.sym_valuer(), **bkw)
@@ -128,7 +132,7 @@ def thermal_worker(job, oblig_fn, meta_prefix, pfkw=None, witnesses_fn=None, bui
     validated = 0
     for pi, p in enumerate(ex.paths[:1]):
         # encoding validation: rows and results of the symbolic run at the witness vs a float run of the real code
-        if p.exc is None and p.witness is not None and not fluid_kwargs:
+        if p.exc is None and p.witness is not None and not fluid_kwargs and not job.get("pre_run"):
             nv, badv = H.validate_against_impl(spec, p, kw, False if spec["fluid"] == "water" else True, build_kwargs=bkw,
                                                fixed_point=True)
             validated += 1 if nv else 0
@@ -156,7 +160,8 @@ def thermal_worker(job, oblig_fn, meta_prefix, pfkw=None, witnesses_fn=None, bui
                                 witness=(p.witness, H.witness_funcs()) if not (ob.get("rows") or ob.get("use_facts")) else None)
             if r == 'sat':
                 rp = {"spec": spec, "numba": numba, "label": ob["label"], "pfmode": kw["mode"],
-                      "values": model_inputs(m, names)}
+                      "values": model_inputs(m, names), "pre_run": job.get("pre_run"),
+                      "pfkw": {k: v for k, v in (pfkw or {}).items() if isinstance(v, (int, float, str, bool))}}
                 rp.update(ob.get("replay", {}))
                 viol.append({"fingerprint": fp, "detail": {"job": job["name"], "obligation": ob["label"], "path": pi},
                              "replay": rp})
